@@ -758,6 +758,58 @@ func intTag(t *Term, recv string) string {
 // denyTables: the module's deny lists contain the specification's lists.
 func denyTables(ctx *Ctx, r *Result, rule string) bool {
 	ok := true
+	// "valid name": the token production of RFC 9110 — httpguts'
+	// ValidHeaderFieldName, or a scan over a byte table that is exactly tchar
+	for _, pk := range []string{pkgHeaders, pkgMethods} {
+		fn := ctx.P.Func(pk, "IsValid")
+		if fn == nil || len(fn.Params) != 1 {
+			r.undecided(rule, short(pk)+".IsValid", "anchor not found")
+			ok = false
+			continue
+		}
+		name := funcName(fn)
+		arg := "param:" + fn.Params[0].Name()
+		viaLib := false
+		if !hasLoop(fn) {
+			ps := ctx.P.NewExec(nil).Summarize(fn)
+			viaLib = len(ps) == 1 && len(ps[0].Rets) == 1 && ps[0].Rets[0].Key() == "call:golang.org/x/net/http/httpguts.ValidHeaderFieldName("+arg+")"
+		}
+		if viaLib {
+			r.ok(rule, name+" = httpguts.ValidHeaderFieldName", 1, "")
+			continue
+		}
+		// a hand-written scan: every ASCIISet table the function consults must be tchar
+		const tchar = "!#$%&'*+-.0123456789ABCDEFGHIJKLMNOPQRSTUVWXYZ^_`abcdefghijklmnopqrstuvwxyz|~"
+		tables := 0
+		bad := ""
+		for _, b := range fn.Blocks {
+			for _, ins := range b.Instrs {
+				g, isG := ins.(*ssa.UnOp)
+				_ = g
+				if !isG {
+					continue
+				}
+				gl, isGlobal := g.X.(*ssa.Global)
+				if !isGlobal {
+					continue
+				}
+				got, err := ctx.P.ASCIISetTable(gl.Pkg.Pkg.Path(), gl.Name())
+				if err != nil {
+					continue
+				}
+				tables++
+				bs := []byte(got)
+				sort.Slice(bs, func(i, j int) bool { return bs[i] < bs[j] })
+				if string(bs) != tchar {
+					bad = fmt.Sprintf("%s scans with the byte table %s = %q, which is not the token alphabet of RFC 9110 (%q)", name, gl.Name(), string(bs), tchar)
+				}
+			}
+		}
+		if tables == 0 {
+			bad = name + " is neither httpguts.ValidHeaderFieldName nor a scan over a byte table the checker can read"
+		}
+		ok = r.check(bad == "", rule, name+": the token alphabet", ctx.P.Pos(fn.Pos()), bad, 1) && ok
+	}
 	type tbl struct {
 		pkg, name string
 		must      []string
